@@ -336,6 +336,7 @@ static void run_config(int bi, int cur, int marka, int depth, int red)
 	cfg_hashseed = bi * 100 + cur * 10 + marka;
 	use_reduced = red;
 	nx_bound = depth;
+	snprintf(nx_cfg_args, sizeof(nx_cfg_args), "cfg=%d,%d,%d,%d", bi, cur, marka, red);
 	nvx_feed(setup, -1);
 	nx_run(4, argv);
 	nvx_pend_pos = nvx_pend_len = 0;
@@ -356,6 +357,15 @@ int main(int argc, char **argv)
 	build_ops();
 	(void) real_op_bytes;
 	d2 = atoi(nv_arg(argc, argv, "depth2", nv_thorough ? "3" : "2"));
+	if (nv_arg(argc, argv, "cfg", NULL)) {
+		int red;
+		sscanf(nv_arg(argc, argv, "cfg", "2,0,-1,0"), "%d,%d,%d,%d", &bi, &cur, &ma, &red);
+		nx_shard_div = 1;
+		cfg_counter = 0;
+		nv_nshards = 1;
+		run_config(bi, cur, ma, nx_replay_n >= 0 ? 8 : 1, red);
+		return nv_finish();
+	}
 	/* every (command, address) pair from every initial configuration */
 	for (bi = 0; bi < 4; bi++)
 		for (cur = 0; cur < (bufn[bi] ? bufn[bi] : 1); cur++)
